@@ -66,6 +66,14 @@ func (xp xpathImpl) resolveExpression(name string, e xpath.Expression, sel *Sele
 	switch x := e.(type) {
 	case *xpath.Operator:
 		return xp.resolveOperator(x, name, sel)
+	case nil:
+		// a path that ends at a leaf: true if the leaf has a value
+		leaf, err := sel.Find(name)
+		if err != nil || leaf == nil {
+			return false, err
+		}
+		v, err := leaf.Get()
+		return v != nil, err
 	}
 	panic("unknown xpath expression")
 }
